@@ -11,6 +11,8 @@ def one(d):
     t = tempfile.mkdtemp(prefix='vx-seedrun-')
     try:
         subprocess.run(['rsync', '-a', '--exclude', 'target', '/repo/crates', t + '/'], check=True)
+        for x_ in ('Cargo.toml', 'Cargo.lock'):
+            shutil.copy('/repo/' + x_, t)
         p = subprocess.run(['patch', '-p1', '-s', '--dry-run', '-i', d + '/patch.diff'], cwd=t, capture_output=True, text=True)
         pf = d + '/patch.diff'
         if p.returncode != 0 and os.path.exists(d + '/patch.rebased.diff'):
